@@ -316,26 +316,22 @@ theorem mem_alPut {β : Type} (m : List (String × β)) (k : String) (v : β) (e
 
 /-! ### invariants of reachable states -/
 
-/-- a cached index, if any, was built from exactly the current data -/
-def Fresh (x : Coll) : Prop := ∀ s, x.cache = some s → s = snapOf x.items
+/-- a cached index, if any, was built from exactly the current data, and that data passed the
+    build-time check "every vector has the first one's dimension" -/
+def Fresh (x : Coll) : Prop := ∀ s, x.cache = some s → s = snapOf x.items ∧ sameDims x.items = true
 
 def Inv (st : State) : Prop := Fresh st.dflt ∧ ∀ e ∈ st.named, Fresh e.2
 
 def KeysOK (st : State) : Prop :=
   (st.dflt.items.map (·.1)).Nodup ∧ ∀ e ∈ st.named, (e.2.items.map (·.1)).Nodup
 
-/-- operations after which the current code does invalidate the cache -/
-def Op.invalidates : Op → Bool
-  | .storeMeta .. | .batchDelete .. | .clear | .dropColl .. => false
-  | _ => true
-
 theorem fresh_none (items : Items) : Fresh ⟨items, none⟩ := by
   intro s h; cases h
 
-theorem fresh_build (items : Items) : Fresh ⟨items, some (snapOf items)⟩ := by
+theorem fresh_build (items : Items) (hd : sameDims items = true) : Fresh ⟨items, some (snapOf items)⟩ := by
   intro s h
   simp only [Option.some.injEq] at h
-  exact h.symm
+  exact ⟨h.symm, hd⟩
 
 theorem fresh_collOf (st : State) (c : String) (h : Inv st) : Fresh (collOf st c) := by
   simp only [collOf]
@@ -355,15 +351,43 @@ theorem inv_ite {p : Prop} [Decidable p] (A B : State × Resp) (hA : Inv A.1) (h
     Inv (if p then A else B).1 := by
   split <;> assumption
 
-theorem afterForgotten_fixed (c : Option Snap) : afterForgotten Variant.fixed c = none := rfl
+theorem alDel_absent {β : Type} (m : List (String × β)) (k : String) (h : alHas m k = false) :
+    alDel m k = m := by
+  simp only [alDel]
+  apply List.filter_eq_self.mpr
+  intro e he
+  cases hk : (e.1 == k) with
+  | false => rfl
+  | true =>
+    have : alHas m k = true := by
+      simp only [alHas, List.any_eq_true]
+      exact ⟨e, he, hk⟩
+    rw [h] at this; cases this
 
-theorem inv_step (v : Variant) (st : State) (op : Op) (h : Inv st)
-    (hv : v.invalidateEverywhere = true ∨ op.invalidates = true) : Inv (step v st op).1 := by
-  have hforgot : ∀ c : Option Snap, op.invalidates = false → afterForgotten v c = none := by
-    intro c hop
-    rcases hv with hv | hv
-    · simp [afterForgotten, hv]
-    · rw [hop] at hv; cases hv
+theorem foldl_alDel_absent {β : Type} (ks : List String) (m : List (String × β))
+    (h : ∀ k ∈ ks, alHas m k = false) : ks.foldl alDel m = m := by
+  induction ks with
+  | nil => rfl
+  | cons k ks ih =>
+    simp only [List.foldl_cons]
+    rw [alDel_absent m k (h k (by simp))]
+    exact ih (fun k' hk' => h k' (by simp [hk']))
+
+/-- `batch_delete_embeddings` deleted nothing (`deleted == 0`): the data is unchanged -/
+theorem batchDelete_nothing {β : Type} (ks : List String) (m : List (String × β))
+    (h : (ks.eraseDups.filter (fun k => alHas m k)).length = 0) : ks.foldl alDel m = m := by
+  apply foldl_alDel_absent
+  intro k hk
+  have hnil : ks.eraseDups.filter (fun k => alHas m k) = [] := List.eq_nil_of_length_eq_zero h
+  have hk' : k ∈ ks.eraseDups := List.mem_eraseDups.mpr hk
+  cases hh : alHas m k with
+  | false => rfl
+  | true =>
+    have : k ∈ ks.eraseDups.filter (fun k => alHas m k) := List.mem_filter.mpr ⟨hk', hh⟩
+    rw [hnil] at this; cases this
+
+/-- every operation of the current code keeps "a cached index was built from the current data" -/
+theorem inv_step (st : State) (op : Op) (h : Inv st) : Inv (step st op).1 := by
   cases op with
   | store key vec =>
     simp only [step]; split
@@ -372,8 +396,7 @@ theorem inv_step (v : Variant) (st : State) (op : Op) (h : Inv st)
   | storeMeta key vec md =>
     simp only [step]; split
     · exact h
-    · refine ⟨?_, h.2⟩
-      rw [hforgot _ rfl]; exact fresh_none _
+    · exact ⟨fresh_none _, h.2⟩
   | delete key =>
     simp only [step]; split
     · exact ⟨fresh_none _, h.2⟩
@@ -381,14 +404,28 @@ theorem inv_step (v : Variant) (st : State) (op : Op) (h : Inv st)
   | batchDelete keys =>
     simp only [step]
     refine ⟨?_, h.2⟩
-    rw [hforgot _ rfl]; exact fresh_none _
+    split
+    · rename_i h0
+      intro s hs
+      simp only at hs ⊢
+      rw [batchDelete_nothing keys st.dflt.items h0]
+      exact h.1 s hs
+    · exact fresh_none _
   | clear =>
     simp only [step]
     refine ⟨?_, h.2⟩
-    rw [hforgot _ rfl]; exact fresh_none _
+    split
+    · rename_i h0
+      intro s hs
+      simp only at hs ⊢
+      have : st.dflt.items = [] := List.eq_nil_of_length_eq_zero h0
+      rw [← this]
+      exact h.1 s hs
+    · exact fresh_none _
   | build =>
     simp only [step]; split
-    · exact ⟨fresh_build _, h.2⟩
+    · rename_i hd
+      exact ⟨fresh_build _ hd, h.2⟩
     · exact h
   | createColl c cfg =>
     simp only [step]; split
@@ -396,8 +433,7 @@ theorem inv_step (v : Variant) (st : State) (op : Op) (h : Inv st)
     · exact ⟨h.1, h.2⟩
   | dropColl c =>
     simp only [step]; split
-    · have := inv_setColl st c ⟨[], afterForgotten v (collOf st c).cache⟩ h (by
-        rw [hforgot _ rfl]; exact fresh_none _)
+    · have := inv_setColl st c ⟨[], none⟩ h (fresh_none _)
       exact ⟨this.1, this.2⟩
     · exact h
   | cstore c key vec md =>
@@ -411,23 +447,16 @@ theorem inv_step (v : Variant) (st : State) (op : Op) (h : Inv st)
     simp only [step]; split
     · exact h
     · split
-      · exact inv_setColl st c _ h (fresh_build _)
+      · rename_i hd
+        exact inv_setColl st c _ h (fresh_build _ hd)
       · exact h
 
-theorem inv_run (v : Variant) (ops : List Op) (st : State) (h : Inv st)
-    (hv : v.invalidateEverywhere = true ∨ ∀ op ∈ ops, op.invalidates = true) : Inv (run v st ops) := by
+theorem inv_run (ops : List Op) (st : State) (h : Inv st) : Inv (run st ops) := by
   induction ops generalizing st with
   | nil => exact h
   | cons op ops ih =>
     simp only [run]
-    apply ih
-    · apply inv_step v st op h
-      rcases hv with hv | hv
-      · exact Or.inl hv
-      · exact Or.inr (hv op (by simp))
-    · rcases hv with hv | hv
-      · exact Or.inl hv
-      · exact Or.inr (fun o ho => hv o (by simp [ho]))
+    exact ih _ (inv_step st op h)
 
 theorem inv_init : Inv State.init := ⟨fresh_none _, by intro e he; cases he⟩
 
@@ -450,7 +479,7 @@ theorem keysOK_ite {p : Prop} [Decidable p] (A B : State × Resp) (hA : KeysOK A
     KeysOK (if p then A else B).1 := by
   split <;> assumption
 
-theorem keysOK_step (v : Variant) (st : State) (op : Op) (h : KeysOK st) : KeysOK (step v st op).1 := by
+theorem keysOK_step (st : State) (op : Op) (h : KeysOK st) : KeysOK (step st op).1 := by
   cases op with
   | store key vec =>
     simp only [step]; split
@@ -480,7 +509,7 @@ theorem keysOK_step (v : Variant) (st : State) (op : Op) (h : KeysOK st) : KeysO
     · exact ⟨h.1, h.2⟩
   | dropColl c =>
     simp only [step]; split
-    · have := keysOK_setColl st c ⟨[], afterForgotten v (collOf st c).cache⟩ h (by simp)
+    · have := keysOK_setColl st c ⟨[], none⟩ h (by simp)
       exact ⟨this.1, this.2⟩
     · exact h
   | cstore c key vec md =>
@@ -499,10 +528,10 @@ theorem keysOK_step (v : Variant) (st : State) (op : Op) (h : KeysOK st) : KeysO
       · exact keysOK_setColl st c _ h (keysOK_collOf st c h)
       · exact h
 
-theorem keysOK_run (v : Variant) (ops : List Op) (st : State) (h : KeysOK st) : KeysOK (run v st ops) := by
+theorem keysOK_run (ops : List Op) (st : State) (h : KeysOK st) : KeysOK (run st ops) := by
   induction ops generalizing st with
   | nil => exact h
-  | cons op ops ih => exact ih _ (keysOK_step v st op h)
+  | cons op ops ih => exact ih _ (keysOK_step st op h)
 
 theorem keysOK_init : KeysOK State.init := ⟨by simp [State.init, Coll.empty], by intro e he; cases he⟩
 
@@ -611,23 +640,49 @@ theorem searchCore_ranked (x : Coll) (m : Metric) (q : List Int) (f : Option Fil
   simp only [searchCore] at h
   split at h
   · split at h
+    · cases h
     · injection h with h1 h2 h3 h4; exact ⟨h1.symm, h2.symm, h3.symm, h4.symm⟩
-    · split at h <;> cases h
   · injection h with h1 h2 h3 h4; exact ⟨h1.symm, h2.symm, h3.symm, h4.symm⟩
 
-
+/-- the index is consulted only when it is cached and passes the guard -/
 theorem searchCore_viaIndex (x : Coll) (m : Metric) (q : List Int) (f : Option Filter) (cut k : Nat)
     (snap : Snap) (rs : List Cand) (cut' k' : Nat)
-    (h : searchCore x m q f cut k = .viaIndex snap rs cut' k') : x.cache = some snap := by
+    (h : searchCore x m q f cut k = .viaIndex snap rs cut' k') :
+    x.cache = some snap ∧ indexUsable snap q = true := by
   simp only [searchCore] at h
   split at h
   · rename_i s hs
     split at h
+    · rename_i hu
+      injection h with h1
+      subst h1
+      exact ⟨hs, hu⟩
     · cases h
-    · split at h
-      · cases h
-      · injection h with h1; rw [hs, h1]
   · cases h
+
+theorem searchCore_ne_mismatch (x : Coll) (m : Metric) (q : List Int) (f : Option Filter) (cut k : Nat)
+    (s : Snap) : searchCore x m q f cut k ≠ .indexDimMismatch s := by
+  intro h
+  simp only [searchCore] at h
+  split at h
+  · split at h <;> cases h
+  · cases h
+
+/-- data that passed the build-time dimension check and whose first vector has the query's
+    dimension: every indexed vector has the query's dimension -/
+theorem snap_dims (items : Items) (hd : sameDims items = true) (q : List Int)
+    (hu : indexUsable (snapOf items) q = true) : ∀ e ∈ snapOf items, e.2.length = q.length := by
+  cases items with
+  | nil => simp [snapOf, indexUsable] at hu
+  | cons e0 rest =>
+    simp only [snapOf, List.map_cons, indexUsable, beq_iff_eq] at hu
+    simp only [sameDims, List.all_eq_true, beq_iff_eq] at hd
+    intro e he
+    simp only [snapOf, List.map_cons, List.mem_cons, List.mem_map] at he
+    rcases he with rfl | ⟨x, hx, rfl⟩
+    · exact hu
+    · simp only
+      rw [hd x hx]; exact hu
 
 /-- what "never consulted after the data changed" means for a state -/
 def NoStaleUse (st : State) : Prop :=
@@ -640,6 +695,87 @@ def NoStaleUse (st : State) : Prop :=
   (∀ c q k f s os snap rs cut k', searchCollFiltered st c q k f s os = .viaIndex snap rs cut k' →
     snap = snapOf (collOf st c).items)
 
+/-- what an entry point may answer for a query `q` as far as dimensions go: an index is consulted
+    only if every indexed vector has the query's dimension; the unspecified outcome of the
+    pre-B1 code never occurs -/
+def SearchOut.dimOK (q : List Int) : SearchOut → Prop
+  | .viaIndex snap _ _ _ => ∀ e ∈ snap, e.2.length = q.length
+  | .indexDimMismatch _ => False
+  | _ => True
+
+def DimGuarded (st : State) : Prop :=
+  (∀ q k, (searchDefault st q k).dimOK q) ∧
+  (∀ m q k, (searchMetric st m q k).dimOK q) ∧
+  (∀ q k f s os, (searchFiltered st q k f s os).dimOK q) ∧
+  (∀ c q k, (searchColl st c q k).dimOK q) ∧
+  (∀ c q k f s os, (searchCollFiltered st c q k f s os).dimOK q)
+
+theorem searchCore_dimOK (x : Coll) (hf : Fresh x) (m : Metric) (q : List Int) (f : Option Filter)
+    (cut k : Nat) : (searchCore x m q f cut k).dimOK q := by
+  cases hout : searchCore x m q f cut k with
+  | err e => trivial
+  | zeroQuery => trivial
+  | ranked m' rs c' k' => trivial
+  | indexDimMismatch s => exact absurd hout (searchCore_ne_mismatch _ _ _ _ _ _ _)
+  | viaIndex snap rs c' k' =>
+    obtain ⟨hc, hu⟩ := searchCore_viaIndex _ _ _ _ _ _ _ _ _ _ hout
+    obtain ⟨rfl, hd⟩ := hf snap hc
+    exact snap_dims x.items hd q hu
+
+theorem dimGuarded_of_inv (st : State) (h : Inv st) : DimGuarded st := by
+  refine ⟨?_, ?_, ?_, ?_, ?_⟩
+  · intro q k
+    simp only [searchDefault]
+    split
+    · trivial
+    · split
+      · trivial
+      · split
+        · trivial
+        · exact searchCore_dimOK _ h.1 _ _ _ _ _
+  · intro m q k
+    simp only [searchMetric]
+    split
+    · trivial
+    · split
+      · trivial
+      · split <;> trivial
+  · intro q k f s os
+    simp only [searchFiltered]
+    split
+    · trivial
+    · split
+      · trivial
+      · split
+        · split
+          · trivial
+          · exact searchCore_dimOK _ h.1 _ _ _ _ _
+        · split <;> trivial
+  · intro c q k
+    simp only [searchColl]
+    split
+    · trivial
+    · split
+      · trivial
+      · split
+        · trivial
+        · split
+          · trivial
+          · exact searchCore_dimOK _ (fresh_collOf st c h) _ _ _ _ _
+  · intro c q k f s os
+    simp only [searchCollFiltered]
+    split
+    · trivial
+    · split
+      · trivial
+      · split
+        · trivial
+        · split
+          · trivial
+          · split
+            · exact searchCore_dimOK _ (fresh_collOf st c h) _ _ _ _ _
+            · trivial
+
 theorem noStaleUse_of_inv (st : State) (h : Inv st) : NoStaleUse st := by
   refine ⟨h, ?_, ?_, ?_, ?_⟩
   · intro q k snap rs cut k' hs
@@ -650,7 +786,7 @@ theorem noStaleUse_of_inv (st : State) (h : Inv st) : NoStaleUse st := by
       · cases hs
       · split at hs
         · cases hs
-        · exact h.1 _ (searchCore_viaIndex _ _ _ _ _ _ _ _ _ _ hs)
+        · exact (h.1 _ (searchCore_viaIndex _ _ _ _ _ _ _ _ _ _ hs).1).1
   · intro q k f s os snap rs cut k' hs
     simp only [searchFiltered] at hs
     split at hs
@@ -660,7 +796,7 @@ theorem noStaleUse_of_inv (st : State) (h : Inv st) : NoStaleUse st := by
       · split at hs
         · split at hs
           · cases hs
-          · exact h.1 _ (searchCore_viaIndex _ _ _ _ _ _ _ _ _ _ hs)
+          · exact (h.1 _ (searchCore_viaIndex _ _ _ _ _ _ _ _ _ _ hs).1).1
         · split at hs <;> cases hs
   · intro c q k snap rs cut k' hs
     simp only [searchColl] at hs
@@ -672,7 +808,7 @@ theorem noStaleUse_of_inv (st : State) (h : Inv st) : NoStaleUse st := by
         · cases hs
         · split at hs
           · cases hs
-          · exact fresh_collOf st c h _ (searchCore_viaIndex _ _ _ _ _ _ _ _ _ _ hs)
+          · exact (fresh_collOf st c h _ (searchCore_viaIndex _ _ _ _ _ _ _ _ _ _ hs).1).1
   · intro c q k f s os snap rs cut k' hs
     simp only [searchCollFiltered] at hs
     split at hs
@@ -684,7 +820,7 @@ theorem noStaleUse_of_inv (st : State) (h : Inv st) : NoStaleUse st := by
         · split at hs
           · cases hs
           · split at hs
-            · exact fresh_collOf st c h _ (searchCore_viaIndex _ _ _ _ _ _ _ _ _ _ hs)
+            · exact (fresh_collOf st c h _ (searchCore_viaIndex _ _ _ _ _ _ _ _ _ _ hs).1).1
             · cases hs
 
 
@@ -724,5 +860,28 @@ theorem mapped_keys_nodup (snap : Snap) (hn : (snap.map (·.1)).Nodup) (ann : Li
         have : b.1 = a.1 := getElem?_key_inj snap hn _ _ _ _ hb' ha hkey
         exact hids.1 (List.mem_map.mpr ⟨b, hb, this⟩)
 
+/-- every result of the engine's post-processing names a node the index returned -/
+theorem mem_postProcessAnn (snap : Snap) (ann : List (Nat × Score)) (k : Nat) (c : Cand)
+    (hc : c ∈ postProcessAnn snap ann k) :
+    ∃ a ∈ ann, ∃ e, snap[a.1]? = some e ∧ c = ⟨e.1, a.2, true⟩ := by
+  have hperm := sortBy_perm (candBetter .cosine)
+    (ann.filterMap fun a => (snap[a.1]?).map fun e => (⟨e.1, a.2, true⟩ : Cand))
+  have h1 := hperm.subset (List.mem_of_mem_take hc)
+  obtain ⟨a, ha, hac⟩ := List.mem_filterMap.mp h1
+  cases he : snap[a.1]? with
+  | none => simp [he] at hac
+  | some e =>
+    simp only [he, Option.map_some, Option.some.injEq] at hac
+    exact ⟨a, ha, e, he, hac.symm⟩
+
+/-- a key of a fresh snapshot is a key stored now, and the snapshot holds its current vector -/
+theorem current_of_mem_snapOf (items : Items) (hn : (items.map (·.1)).Nodup) (key : String)
+    (vec : List Int) (h : (key, vec) ∈ snapOf items) :
+    ∃ it, alGet items key = some it ∧ vecOf it = vec := by
+  simp only [snapOf, List.mem_map] at h
+  obtain ⟨e, he, heq⟩ := h
+  simp only [Prod.mk.injEq] at heq
+  obtain ⟨rfl, rfl⟩ := heq
+  exact ⟨e.2, alGet_of_mem_nodup items e.1 e.2 hn he, rfl⟩
 
 end Neumann.Vec
